@@ -12,7 +12,7 @@ def run(cmd, **kw):
 
 
 def evaluate(pid, x, extra_checks=()):
-    src = ("/tmp/seedout2_%s" if x in ("C", "D") else "/tmp/seedout_%s") % pid
+    src = {"A": "/tmp/seedout_%s", "B": "/tmp/seedout_%s", "C": "/tmp/seedout2_%s", "D": "/tmp/seedout2_%s", "E": "/tmp/seedout3_%s", "F": "/tmp/seedout3_%s"}[x] % pid
     patch, demo = os.path.join(src, x + ".diff"), os.path.join(src, x + "_demo.py")
     if not (os.path.exists(patch) and os.path.exists(demo)):
         print(pid, x, "MISSING FILES")
@@ -71,6 +71,9 @@ if __name__ == "__main__":
     args = sys.argv[1:]
     if args and args[0] == "--round2":
         variants = ("C", "D")
+        args = args[1:]
+    elif args and args[0] == "--round3":
+        variants = ("E", "F")
         args = args[1:]
     for pid in args:
         for x in variants:
